@@ -136,6 +136,75 @@ Theorem no_shuffle_yields_dataset_order : forall c draw, d_rep c = 1 -> d_shuffl
 Proof. exact dist_no_shuffle. Qed.
 Print Assumptions no_shuffle_yields_dataset_order.
 
+(* ---- default rank / world_size arguments: resolved from the process group as it is AT CONSTRUCTION ----
+   explicit argument, else the process group's current value, else (0, 1); what was asked or constructed earlier
+   in the process (EvQuery events: is_distributed() / get_rank() / get_world_size() calls, throwaway samplers) is
+   irrelevant *)
+Theorem rank_resolution_independent_of_history : forall g evs rank world,
+    resolve_rank_world rank world (pg_after g evs)
+    = resolve_rank_world rank world (pg_after g (filter (fun ev => negb (is_query ev)) evs)).
+Proof. exact resolve_independent_of_history. Qed.
+Print Assumptions rank_resolution_independent_of_history.
+
+Theorem torch_rank_resolution_independent_of_history : forall g evs rank world,
+    resolve_torch rank world (pg_after g evs)
+    = resolve_torch rank world (pg_after g (filter (fun ev => negb (is_query ev)) evs)).
+Proof. exact resolve_torch_independent_of_history. Qed.
+Print Assumptions torch_rank_resolution_independent_of_history.
+
+(* after init_process_group(rank r, world W) - whatever came before, queries since - the defaults are (r, W) *)
+Theorem default_rank_world_is_current_group : forall r W evs, joined_as r W evs ->
+    resolve_rank_world None None (pg_after pg_fresh evs) = (r, W).
+Proof. exact resolve_after_init. Qed.
+Print Assumptions default_rank_world_is_current_group.
+
+(* explicit arguments win, also rank 0 (the repaired `rank or get_rank()`) *)
+Theorem explicit_rank_world_win : forall r W g, resolve_rank_world (Some r) (Some W) g = (r, W).
+Proof. exact resolve_explicit. Qed.
+Print Assumptions explicit_rank_world_win.
+
+Theorem without_group_rank_0_of_1 : forall g, is_distributed g = false -> resolve_rank_world None None g = (0, 1).
+Proof. exact resolve_no_group. Qed.
+Print Assumptions without_group_rank_0_of_1.
+
+(* a sampler built with default arguments in a process that joined as (r, W) IS the sampler built with explicit
+   (r, W) *)
+Theorem default_arguments_are_explicit_arguments : forall r W evs, joined_as r W evs ->
+    (forall c draw, w_built c None None (pg_after pg_fresh evs) draw = w_run (w_set_world c W) draw r) /\
+    (forall c draw, cb_built c None None (pg_after pg_fresh evs) draw = cb_run (cb_set_world c W) draw r) /\
+    (r < W -> forall c draw, dist_built c None None (pg_after pg_fresh evs) draw
+                             = Some (dist_run (d_set_world c W) draw r)).
+Proof. exact built_default_is_explicit. Qed.
+Print Assumptions default_arguments_are_explicit_arguments.
+
+(* hence the W processes of a group, each with a history of its own (hist r), split the one global draw *)
+Theorem weighted_default_arguments_split : forall c draw E W (hist : nat -> list pg_event),
+    len_oracle draw -> 1 <= W -> w_E c = Ok E ->
+    (forall r, r < W -> joined_as r W (hist r)) ->
+    split_of true W (E / W) (draw (w_seed c + w_epoch c)%Z [] E)
+             (map (fun r => stream_of (r_out (w_built c None None (pg_after pg_fresh (hist r)) draw))) (seq 0 W)).
+Proof. exact w_default_split. Qed.
+Print Assumptions weighted_default_arguments_split.
+
+Theorem class_balanced_default_arguments_split : forall c draw W (hist : nat -> list pg_event),
+    perm_oracle draw -> cb_ctor_ok c = true -> 1 <= W ->
+    (forall r, r < W -> joined_as r W (hist r)) ->
+    exists G h, cb_global c draw = Ok (G, h) /\ length G = cb_E c /\
+    split_of true W (cb_E c / W) G
+             (map (fun r => stream_of (r_out (cb_built c None None (pg_after pg_fresh (hist r)) draw))) (seq 0 W)).
+Proof. exact cb_default_split. Qed.
+Print Assumptions class_balanced_default_arguments_split.
+
+Theorem distributed_default_arguments_split : forall c draw W (hist : nat -> list pg_event),
+    len_oracle draw -> dcfg_ok (d_set_world c W) ->
+    (forall r, r < W -> joined_as r W (hist r)) ->
+    exists G, dist_global c draw = Ok G /\ length G = d_n c /\
+      split_of (d_drop c) W (num_samples (d_set_world c W)) G
+               (map (fun r => match dist_built c None None (pg_after pg_fresh (hist r)) draw with
+                              | Some m => stream_of (r_out m) | None => [] end) (seq 0 W)).
+Proof. exact dist_default_split. Qed.
+Print Assumptions distributed_default_arguments_split.
+
 (* ---- non-vacuity of the premises ---- *)
 Example identity_oracle_is_perm_oracle : perm_oracle (fun _ _ n => seq 0 n).
 Proof. intros s h n. apply Permutation_refl. Qed.
@@ -162,3 +231,13 @@ Example epoch_sequence_example :
   = [Ok [2; 0]; Ok [2; 0]; Ok [1; 3]; Ok [2; 0]]
   /\ iter_epochs (d_epoch c) [SetEpoch 7; Iterate; Iterate; SetEpoch 1; Iterate; SetEpoch 7; Iterate] = [7; 7; 1; 7]%Z.
 Proof. vm_compute. split; reflexivity. Qed.
+Example joined_as_example :
+  joined_as 1 3 [EvQuery; EvInit 0 2; EvQuery; EvDestroy; EvQuery; EvInit 1 3; EvQuery; EvQuery].
+Proof. exists [EvQuery; EvInit 0 2; EvQuery; EvDestroy; EvQuery], [EvQuery; EvQuery]. repeat split. Qed.
+Example preview_then_init_example :
+  let c := {| w_n := 6; w_size := None; w_seed := 0; w_epoch := 0; w_W := 0 |} in
+  map (fun r => r_out (w_built c None None (pg_after pg_fresh [EvQuery; EvInit r 3]) (fun _ _ n => seq 0 n))) (seq 0 3)
+  = [Ok [0; 3]; Ok [1; 4]; Ok [2; 5]]
+  /\ r_out (w_built c None None (pg_after pg_fresh [EvInit 2 3; EvDestroy]) (fun _ _ n => seq 0 n)) = Ok [0; 1; 2; 3; 4; 5]
+  /\ r_out (w_built c (Some 0) (Some 2) (pg_after pg_fresh [EvInit 2 3]) (fun _ _ n => seq 0 n)) = Ok [0; 2; 4].
+Proof. vm_compute. repeat split. Qed.
